@@ -4,6 +4,7 @@
 wt=$1; od=$2; m=$3
 export GOFLAGS=-mod=mod GOPROXY=off GOSUMDB=off GOTOOLCHAIN=local
 cd "$wt" || exit 2
+git checkout -q -- . ; git checkout -q --detach "$(git -C /repo rev-parse HEAD)" || exit 2
 git checkout -q -- . ; git clean -fdq
 demo=$(python3 -c "import json;print([x for x in json.load(open('$od/meta.json')) if x['id']=='$m'][0]['demo'])")
 ddir=$(python3 -c "import json;print([x for x in json.load(open('$od/meta.json')) if x['id']=='$m'][0]['demo_dir'])")
